@@ -1,47 +1,64 @@
 import Walrus.Body
 import Walrus.Proofs.Traverse
 
-/-! The `Emit` visitor folded over the in-order walk = structural flattening of the tree (C15, C03). -/
+/-! The `Emit` visitor folded over the in-order walk = structural flattening of the tree, with the
+    location of every emitted operator (C15, C03, C11). -/
 namespace Walrus
 
-/-- what one non-structured instruction emits, given the enclosing sequences (innermost first) -/
-def leafOps (m : IdMaps) (ctx : List Nat) : BInstr → Option (List Op)
-  | .br s => (branchTarget ctx s).map fun d => [⟨"Br", [.ref "l" d]⟩]
-  | .brIf s => (branchTarget ctx s).map fun d => [⟨"BrIf", [.ref "l" d]⟩]
-  | .brTable ts d =>
-    match branchTarget ctx d, ts.mapM (branchTarget ctx) with
-    | some dd, some tts => some [⟨"BrTable", tts.map (Arg.ref "l") ++ [.ref "l" dd]⟩]
-    | _, _ => none
-  | .leaf op => (mapArgs m op.args).map fun a => [⟨op.name, a⟩]
-  | _ => none
-
 mutual
-/-- structural, recursive flattening of the tree view: the declarative meaning of "the in-order
-    flattening of the built tree" -/
-def flattenI (m : IdMaps) (ctx : List Nat) : TI SeqTy BInstr → Option (List Op)
-  | .leaf p => leafOps m ctx p
+/-- structural, recursive flattening of the tree view: every emitted operator together with the
+    location recorded for it (the instruction's own location; for `end`/`else` the end location of
+    the sequence they close) -/
+def flattenI (m : IdMaps) (ctx : List Nat) : TI LSeqTy LInstr → Option (List (Nat × Op))
+  | .leaf p => (emitPlain m ctx p.1).map fun op => [(p.2, op)]
   | .one p s ty b =>
-    match blockTy m ty, flattenL m (s :: ctx) b with
+    match blockTy m ty.1, flattenL m (s :: ctx) b with
     | some bt, some body =>
-      (match p with
-       | .block _ => some ([⟨"Block", [bt]⟩] ++ body ++ [⟨"End", []⟩])
-       | .loop _ => some ([⟨"Loop", [bt]⟩] ++ body ++ [⟨"End", []⟩])
+      (match p.1 with
+       | .block _ => some ([(p.2, ⟨"Block", [bt]⟩)] ++ body ++ [(ty.2, ⟨"End", []⟩)])
+       | .loop _ => some ([(p.2, ⟨"Loop", [bt]⟩)] ++ body ++ [(ty.2, ⟨"End", []⟩)])
        | _ => none)
     | _, _ => none
-  | .two p c cty tc a _aty ta =>
-    match blockTy m cty, flattenL m (c :: ctx) tc, flattenL m (a :: ctx) ta with
+  | .two p c cty tc a aty ta =>
+    match blockTy m cty.1, flattenL m (c :: ctx) tc, flattenL m (a :: ctx) ta with
     | some bt, some x, some y =>
-      (match p with
-       | .ifElse _ _ => some ([⟨"If", [bt]⟩] ++ x ++ [⟨"Else", []⟩] ++ y ++ [⟨"End", []⟩])
+      (match p.1 with
+       | .ifElse _ _ => some ([(p.2, ⟨"If", [bt]⟩)] ++ x ++ [(cty.2, ⟨"Else", []⟩)] ++ y ++ [(aty.2, ⟨"End", []⟩)])
        | _ => none)
     | _, _, _ => none
-def flattenL (m : IdMaps) (ctx : List Nat) : TL SeqTy BInstr → Option (List Op)
+def flattenL (m : IdMaps) (ctx : List Nat) : TL LSeqTy LInstr → Option (List (Nat × Op))
   | .nil => some []
   | .cons h t =>
     match flattenI m ctx h, flattenL m ctx t with
     | some a, some b => some (a ++ b)
     | _, _ => none
 end
+
+/-- the (location, position) pairs of a run of located operators starting at position `base` -/
+def marksOf (base : Nat) : List (Nat × Op) → List (Nat × Nat)
+  | [] => []
+  | (l, _) :: r => (l, base) :: marksOf (base + 1) r
+
+theorem marksOf_append (b : Nat) (x y : List (Nat × Op)) :
+    marksOf b (x ++ y) = marksOf b x ++ marksOf (b + x.length) y := by
+  induction x generalizing b with
+  | nil => simp [marksOf]
+  | cons h t ih =>
+    obtain ⟨l, o⟩ := h
+    simp only [List.cons_append, marksOf, ih, List.length_cons]
+    have : b + 1 + t.length = b + (t.length + 1) := by omega
+    rw [this]
+
+/-- state after emitting the located operators `ops` -/
+def EmitSt.extend (st : EmitSt) (ops : List (Nat × Op)) : EmitSt :=
+  { st with out := st.out ++ ops.map (·.2), marks := st.marks ++ marksOf st.out.length ops }
+
+theorem extend_extend (st : EmitSt) (a b : List (Nat × Op)) :
+    (st.extend a).extend b = st.extend (a ++ b) := by
+  simp [EmitSt.extend, marksOf_append, List.append_assoc]
+
+theorem extend_nil (st : EmitSt) : st.extend [] = st := by
+  simp [EmitSt.extend, marksOf]
 
 theorem emitFold_append (m : IdMaps) (st : EmitSt) (a b : List EEv) :
     emitFold m st (a ++ b) = (emitFold m st a).bind (emitFold m · b) := by
@@ -51,76 +68,60 @@ theorem emitFold_append (m : IdMaps) (st : EmitSt) (a b : List EEv) :
     simp only [List.cons_append, emitFold]
     cases emitStep m st e <;> simp [ih]
 
-theorem emitStep_leaf (m : IdMaps) (ctx : List Nat) (kinds : List BlockKind) (out : List Op) (p : BInstr)
-    (ops : List Op) (h : leafOps m ctx p = some ops) :
-    emitStep m ⟨ctx, kinds, out⟩ (.instr p) = some ⟨ctx, kinds, out ++ ops⟩ := by
-  cases p with
-  | br s =>
-    simp only [leafOps, Option.map_eq_some_iff] at h
-    obtain ⟨d, hd, rfl⟩ := h
-    simp [emitStep, hd]
-  | brIf s =>
-    simp only [leafOps, Option.map_eq_some_iff] at h
-    obtain ⟨d, hd, rfl⟩ := h
-    simp [emitStep, hd]
-  | brTable ts d =>
-    simp only [leafOps] at h
-    cases hd : branchTarget ctx d with
-    | none => simp [hd] at h
-    | some dd =>
-      cases ht : ts.mapM (branchTarget ctx) with
-      | none => simp [hd, ht] at h
-      | some tts =>
-        simp only [hd, ht, Option.some.injEq] at h
-        subst h
-        simp [emitStep, hd, ht]
-  | leaf op =>
-    simp only [leafOps, Option.map_eq_some_iff] at h
-    obtain ⟨a, ha, rfl⟩ := h
-    simp [emitStep, ha]
-  | block s => simp [leafOps] at h
-  | loop s => simp [leafOps] at h
-  | ifElse c a => simp [leafOps] at h
+theorem emitStep_plain (m : IdMaps) (st : EmitSt) (i : BInstr) (loc : Nat) (op : Op)
+    (h : emitPlain m st.blocks i = some op) :
+    emitStep m st (.instr i loc) = some (st.extend [(loc, op)]) := by
+  cases i with
+  | block s => simp [emitPlain] at h
+  | loop s => simp [emitPlain] at h
+  | ifElse c a => simp [emitPlain] at h
+  | br s => simp [emitStep, h, EmitSt.extend, marksOf]
+  | brIf s => simp [emitStep, h, EmitSt.extend, marksOf]
+  | brTable ts d => simp [emitStep, h, EmitSt.extend, marksOf]
+  | leaf o => simp [emitStep, h, EmitSt.extend, marksOf]
 
 mutual
-theorem emit_I (m : IdMaps) : (i : TI SeqTy BInstr) → ∀ ctx kinds out ops, flattenI m ctx i = some ops →
-    emitFold m ⟨ctx, kinds, out⟩ (evInstr i.toInstr.payload ++ walkKids evStart evInstr evEnd i)
-      = some ⟨ctx, kinds, out ++ ops⟩
-  | .leaf p, ctx, kinds, out, ops, h => by
+theorem emit_I (m : IdMaps) : (i : TI LSeqTy LInstr) → ∀ (st : EmitSt) ops, flattenI m st.blocks i = some ops →
+    emitFold m st (evInstr i.toInstr.payload ++ walkKids evStart evInstr evEnd i) = some (st.extend ops)
+  | .leaf p, st, ops, h => by
+      simp only [flattenI, Option.map_eq_some_iff] at h
+      obtain ⟨op, hop, rfl⟩ := h
+      simp [walkKids, evInstr, TI.toInstr, emitFold, emitStep_plain m st p.1 p.2 op hop]
+  | .one p s ty b, st, ops, h => by
+      obtain ⟨ctx, kinds, out, marks⟩ := st
       simp only [flattenI] at h
-      simp [walkKids, evInstr, TI.toInstr, emitFold, emitStep_leaf m ctx kinds out p ops h]
-  | .one p s ty b, ctx, kinds, out, ops, h => by
-      simp only [flattenI] at h
-      cases hbt : blockTy m ty with
+      cases hbt : blockTy m ty.1 with
       | none => simp [hbt] at h
       | some bt =>
         cases hb : flattenL m (s :: ctx) b with
         | none => simp [hbt, hb] at h
         | some body =>
           simp only [hbt, hb] at h
-          cases p with
+          obtain ⟨pi, ploc⟩ := p
+          cases pi with
           | block s' =>
             simp only [Option.some.injEq] at h; subst h
-            have ih := emit_L m b (s :: ctx) (.block :: kinds) (out ++ [⟨"Block", [bt]⟩]) body hb
+            have ih := emit_L m b ⟨s :: ctx, .block :: kinds, out ++ [⟨"Block", [bt]⟩], marks ++ [(ploc, out.length)]⟩ body hb
             simp only [walkKids, evInstr, evStart, evEnd, TI.toInstr, List.singleton_append, List.cons_append,
               List.nil_append, emitFold, emitStep, Option.bind_some, hbt, Option.map_some]
             rw [emitFold_append, ih]
-            simp [emitFold, emitStep, List.append_assoc]
+            simp [emitFold, emitStep, EmitSt.extend, marksOf, marksOf_append, List.append_assoc, Nat.add_assoc, Nat.add_comm 1]
           | loop s' =>
             simp only [Option.some.injEq] at h; subst h
-            have ih := emit_L m b (s :: ctx) (.loop :: kinds) (out ++ [⟨"Loop", [bt]⟩]) body hb
+            have ih := emit_L m b ⟨s :: ctx, .loop :: kinds, out ++ [⟨"Loop", [bt]⟩], marks ++ [(ploc, out.length)]⟩ body hb
             simp only [walkKids, evInstr, evStart, evEnd, TI.toInstr, List.singleton_append, List.cons_append,
               List.nil_append, emitFold, emitStep, Option.bind_some, hbt, Option.map_some]
             rw [emitFold_append, ih]
-            simp [emitFold, emitStep, List.append_assoc]
+            simp [emitFold, emitStep, EmitSt.extend, marksOf, marksOf_append, List.append_assoc, Nat.add_assoc, Nat.add_comm 1]
           | ifElse _ _ => simp at h
           | br _ => simp at h
           | brIf _ => simp at h
           | brTable _ _ => simp at h
           | leaf _ => simp at h
-  | .two p c cty tc a aty ta, ctx, kinds, out, ops, h => by
+  | .two p c cty tc a aty ta, st, ops, h => by
+      obtain ⟨ctx, kinds, out, marks⟩ := st
       simp only [flattenI] at h
-      cases hbt : blockTy m cty with
+      cases hbt : blockTy m cty.1 with
       | none => simp [hbt] at h
       | some bt =>
         cases hx : flattenL m (c :: ctx) tc with
@@ -130,58 +131,66 @@ theorem emit_I (m : IdMaps) : (i : TI SeqTy BInstr) → ∀ ctx kinds out ops, f
           | none => simp [hbt, hx, hy] at h
           | some y =>
             simp only [hbt, hx, hy] at h
-            cases p with
+            obtain ⟨pi, ploc⟩ := p
+            cases pi with
             | ifElse c' a' =>
               simp only [Option.some.injEq] at h; subst h
-              have ih1 := emit_L m tc (c :: ctx) (.if_ :: kinds) (out ++ [⟨"If", [bt]⟩]) x hx
-              have ih2 := emit_L m ta (a :: ctx) (.else_ :: kinds) (out ++ [⟨"If", [bt]⟩] ++ x ++ [⟨"Else", []⟩]) y hy
+              have ih1 := emit_L m tc ⟨c :: ctx, .if_ :: kinds, out ++ [⟨"If", [bt]⟩], marks ++ [(ploc, out.length)]⟩ x hx
               simp only [walkKids, evInstr, evStart, evEnd, TI.toInstr, List.singleton_append, List.cons_append,
                 List.nil_append, emitFold, emitStep, Option.bind_some, hbt, Option.map_some, List.append_assoc]
               rw [emitFold_append, ih1]
-              simp only [Option.bind_some, List.cons_append, List.nil_append, emitFold, emitStep]
+              simp only [Option.bind_some, List.cons_append, List.nil_append, emitFold, emitStep, EmitSt.extend]
+              have ih2 := emit_L m ta
+                (EmitSt.mk (a :: ctx) (.else_ :: kinds)
+                  (out ++ [Op.mk "If" [bt]] ++ x.map (·.2) ++ [Op.mk "Else" []])
+                  (marks ++ [(ploc, out.length)] ++ marksOf (out ++ [Op.mk "If" [bt]]).length x ++
+                    [(cty.2, (out ++ [Op.mk "If" [bt]] ++ x.map (·.2)).length)])) y hy
               rw [emitFold_append, ih2]
-              simp [emitFold, emitStep, List.append_assoc]
+              simp [emitFold, emitStep, EmitSt.extend, marksOf, marksOf_append, List.append_assoc, Nat.add_assoc, Nat.add_comm 1]
+              omega
             | block _ => simp at h
             | loop _ => simp at h
             | br _ => simp at h
             | brIf _ => simp at h
             | brTable _ _ => simp at h
             | leaf _ => simp at h
-theorem emit_L (m : IdMaps) : (t : TL SeqTy BInstr) → ∀ ctx kinds out ops, flattenL m ctx t = some ops →
-    emitFold m ⟨ctx, kinds, out⟩ (walkL evStart evInstr evEnd t) = some ⟨ctx, kinds, out ++ ops⟩
-  | .nil, ctx, kinds, out, ops, h => by
+theorem emit_L (m : IdMaps) : (t : TL LSeqTy LInstr) → ∀ (st : EmitSt) ops, flattenL m st.blocks t = some ops →
+    emitFold m st (walkL evStart evInstr evEnd t) = some (st.extend ops)
+  | .nil, st, ops, h => by
       simp only [flattenL, Option.some.injEq] at h; subst h
-      simp [walkL, emitFold]
-  | .cons hd tl, ctx, kinds, out, ops, h => by
+      simp [walkL, emitFold, extend_nil]
+  | .cons hd tl, st, ops, h => by
       simp only [flattenL] at h
-      cases ha : flattenI m ctx hd with
+      cases ha : flattenI m st.blocks hd with
       | none => simp [ha] at h
       | some a =>
-        cases hb : flattenL m ctx tl with
+        cases hb : flattenL m st.blocks tl with
         | none => simp [ha, hb] at h
         | some b =>
           simp only [ha, hb, Option.some.injEq] at h; subst h
-          have i1 := emit_I m hd ctx kinds out a ha
-          have i2 := emit_L m tl ctx kinds (out ++ a) b hb
+          have i1 := emit_I m hd st a ha
+          have i2 := emit_L m tl (st.extend a) b (by simpa [EmitSt.extend] using hb)
           simp only [walkL]
-          rw [← List.append_assoc, emitFold_append, i1]
-          simp [i2, List.append_assoc]
+          rw [emitFold_append, i1]
+          simp [i2, extend_extend]
 end
 
-/-- emission with an explicit fuel for the traversal -/
-def emitBodyFuel (m : IdMaps) (ar : BArena) (fuel entry : Nat) : Option (List Op) :=
+/-- emission with an explicit fuel for the traversal: operators and the raw location map -/
+def emitBodyFuel (m : IdMaps) (ar : BArena) (fuel entry : Nat) : Option (List Op × List (Nat × Nat)) :=
   let r := bodyEvents ar fuel entry
   if !r.1.isEmpty then none else
-  (emitFold m ⟨[], [.entry], []⟩ r.2).map (·.out)
+  (emitFold m ⟨[], [.entry], [], []⟩ r.2).map fun st => (st.out, st.marks)
 
-theorem emitBody_eq_fuel (m : IdMaps) (ar : BArena) (entry : Nat) :
-    emitBody m ar entry = emitBodyFuel m ar (arenaFuel ar) entry := rfl
+theorem emitBodyMarks_eq_fuel (m : IdMaps) (ar : BArena) (entry : Nat) :
+    emitBodyMarks m ar entry = emitBodyFuel m ar (arenaFuel ar) entry := rfl
 
-/-- **the emitted body is the in-order flattening of the tree** -/
-theorem emitBody_eq_flatten (m : IdMaps) (ar : BArena) (entry : Nat) (ty : SeqTy) (t : TL SeqTy BInstr)
-    (he : ar.get? entry = some (ty, t.toList)) (hv : ViewL ar t) (ops : List Op)
+/-- **the emitted body is the in-order flattening of the tree**, and the location map pairs every
+    emitted operator, in order, with its position -/
+theorem emitBody_eq_flatten (m : IdMaps) (ar : BArena) (entry : Nat) (ty : LSeqTy) (t : TL LSeqTy LInstr)
+    (he : ar.get? entry = some (ty, t.toList)) (hv : ViewL ar t) (ops : List (Nat × Op))
     (hf : flattenL m [entry] t = some ops) :
-    ∃ n, ∀ fuel, n ≤ fuel → emitBodyFuel m ar fuel entry = some (ops ++ [⟨"End", []⟩]) := by
+    ∃ n, ∀ fuel, n ≤ fuel → emitBodyFuel m ar fuel entry =
+      some ((ops ++ [(ty.2, Op.mk "End" [])]).map (·.2), marksOf 0 (ops ++ [(ty.2, Op.mk "End" [])])) := by
   obtain ⟨n, hn⟩ := dfsInOrder_eq_walk evStart evInstr evEnd ar entry ty t he hv
   refine ⟨n, fun fuel hfuel => ?_⟩
   have := hn fuel hfuel
@@ -190,7 +199,7 @@ theorem emitBody_eq_flatten (m : IdMaps) (ar : BArena) (entry : Nat) (ty : SeqTy
   simp only [List.isEmpty_nil, Bool.not_true, Bool.false_eq_true, if_false, walkSeq, evStart, evEnd]
   rw [List.append_assoc, emitFold_append]
   simp only [emitFold, emitStep, Option.bind_some]
-  rw [emitFold_append, emit_L m t [entry] [.entry] [] ops hf]
-  simp [emitFold, emitStep]
+  rw [emitFold_append, emit_L m t ⟨[entry], [.entry], [], []⟩ ops hf]
+  simp [emitFold, emitStep, EmitSt.extend, marksOf_append, marksOf]
 
 end Walrus
